@@ -22,7 +22,7 @@ func init() {
 	property("C11",
 		"Static conformance of AutoVar handling: (a) an AutoVar operand is recognised as an identifier configured in autovar_commands, parsed with the ordinary command parser, and its result var is the configured name or the argument at the configured position (bounds-checked), taken verbatim; (b) the parsed command is attached as the preamble of exactly the leaf whose operand is that result var (type VAR), and for switch it is placed immediately before the switch statement; (c) the leaf renders its preamble with the ordinary command renderer exactly once, before the comparison, iff present; each leaf owns one chunk and loops re-enter at the condition's entry chunk (C02.e, C01.e).",
 		[]string{"scheme argument of DESIGN §4 C11"},
-		"C11.a", "C11.b", "C11.c", "C02.e", "C02.i", "C06.c", "C10.e", "C01.e", "C02.d", "C01.h")
+		"C11.a", "C11.b", "C11.c", "C02.e", "C02.i", "C06.c", "C10.e", "C01.e", "C02.d", "C01.h", "C11.d")
 
 	register(&Rule{ID: "C09.a", Doc: "terminator table and append-iff-missing", Floor: 5, Run: c09a})
 	register(&Rule{ID: "C09.b", Doc: "recorded / returned text is terminator-formatted with its own string type", Floor: 6, Run: c09b})
@@ -957,6 +957,18 @@ func c11b(c *Ctx) {
 				}
 			}
 			okPre := pre != nil && c.term(fn, pre.Val) == res+"#1" && hasLit(c.mustLits(fn, pre.Block()), "+(*parser.Parser).peekTokenIsAutoVar($0)@0")
+			// exactly when the leaf compares the command's result: the command is attached on every
+			// path on which its result var becomes the operand (under a '!' as well)
+			if okPre && operand != nil {
+				pc := c.PC(fn)
+				dp, do := pc.canonOf(pc.At(pre.Block())), pc.canonOf(pc.At(operand.Block()))
+				if !dnfEquiv(dp, do) {
+					okPre = false
+					c.Bad("leaf/preamble-iff-operand", c.W.Pos(pre.Pos()), "the AutoVar command is attached under ["+dp.String()+"] but its result var becomes the operand under ["+do.String()+"]: on the difference the leaf compares a result that was never produced")
+				} else {
+					c.OK("leaf/preamble-iff-operand", c.W.Pos(pre.Pos()), "the command is attached exactly when its result var is the operand")
+				}
+			}
 			c.Check(okPre, "leaf/preamble", c.W.FuncPos(fn), "AutoVar leaf carries the parsed command as preamble", "the AutoVar command is not stored as the leaf's PreambleStatement")
 			okOp := false
 			got := ""
